@@ -738,6 +738,7 @@ static void run_c12(const RunSpec& s, RunResult& R) {
     cfg.pct_depth = s.pct_depth;
     cfg.pct_span = s.pct_span;
     cfg.max_steps = 5000000;
+    cfg.max_switches = 120000;
     cfg.replay_steps = s.dsteps.data();
     cfg.replay_tasks = s.dtasks.data();
     cfg.replay_n = (uint32_t)s.dsteps.size();
@@ -881,7 +882,7 @@ static int child_run(const RunSpec& s, long idx, int fd, const char* dump_path) 
   sim_fctx.run_seed = s.run_seed;
   for (int i = 0; i < 32; ++i) sim_fctx.cur_call[i] = -1;
   sim_install_fault_handlers();
-  alarm(s.thorough ? 240 : 20);
+  alarm(s.thorough ? 300 : 60);
   if (dump_path) {
     // written before anything runs, so that a run ending in a fault still leaves its explicit program behind
     // (for a concurrent world the schedule is then the recorded policy+seed; a completed run rewrites the file
